@@ -23,6 +23,7 @@ type Run struct {
 	Level  string
 	Replay string // path of a replay artefact, "" for a normal run
 	Home   string // /verif
+	Out    string // where evidence/ and replays/ are written (VERIF_OUT, default Home)
 	Repo   string // /repo (or $VERIF_REPO)
 
 	start    time.Time
@@ -82,12 +83,18 @@ func Start(id, level string) *Run {
 	if r.Home == "" {
 		r.Home = "/verif"
 	}
+	// VERIF_OUT redirects evidence and replay artefacts (used when a check is pointed at another tree
+	// with VERIF_REPO, so that the committed evidence of /repo is not overwritten).
+	r.Out = os.Getenv("VERIF_OUT")
+	if r.Out == "" {
+		r.Out = r.Home
+	}
 	r.Repo = os.Getenv("VERIF_REPO")
 	if r.Repo == "" {
 		r.Repo = "/repo"
 	}
 	if r.Replay == "" {
-		_ = os.RemoveAll(filepath.Join(r.Home, "replays", id))
+		_ = os.RemoveAll(filepath.Join(r.Out, "replays", id))
 	}
 	var ff findingsFile
 	if b, err := os.ReadFile(filepath.Join(r.Home, "known_findings.json")); err == nil {
@@ -246,7 +253,7 @@ func (r *Run) Finish(rule string) {
 	viol := 0
 	sort.Strings(r.order)
 	var lines []string
-	_ = os.MkdirAll(filepath.Join(r.Home, "replays", r.ID), 0o755)
+	_ = os.MkdirAll(filepath.Join(r.Out, "replays", r.ID), 0o755)
 	for _, key := range r.order {
 		c := r.classes[key]
 		if c.known >= 0 {
@@ -256,7 +263,7 @@ func (r *Run) Finish(rule string) {
 		}
 		viol++
 		name := sanitize(key) + ".json"
-		p := filepath.Join(r.Home, "replays", r.ID, name)
+		p := filepath.Join(r.Out, "replays", r.ID, name)
 		if r.Replay != "" {
 			lines = append(lines, fmt.Sprintf("VIOLATION property=%s replay=%s", r.ID, r.Replay))
 			continue
@@ -292,8 +299,8 @@ func (r *Run) Finish(rule string) {
 			"coverage": cov, "assumptions": r.assume, "wall_s": wall, "violations": viol,
 		}
 		b, _ := json.MarshalIndent(ev, "", " ")
-		_ = os.MkdirAll(filepath.Join(r.Home, "evidence"), 0o755)
-		if err := os.WriteFile(filepath.Join(r.Home, "evidence", r.ID+".json"), append(b, '\n'), 0o644); err != nil {
+		_ = os.MkdirAll(filepath.Join(r.Out, "evidence"), 0o755)
+		if err := os.WriteFile(filepath.Join(r.Out, "evidence", r.ID+".json"), append(b, '\n'), 0o644); err != nil {
 			fmt.Fprintln(os.Stderr, err)
 			os.Exit(2)
 		}
